@@ -12,6 +12,7 @@ from hypergraph.runners._shared.helpers import (
     _UNSET_SELECT,
     normalize_select,
     _validate_error_handling,
+    _validate_max_concurrency,
     _validate_on_missing,
     filter_outputs,
     generate_map_inputs,
@@ -175,6 +176,7 @@ class AsyncRunnerTemplate(BaseRunner, ABC):
         )
         _validate_on_missing(on_missing)
         _validate_error_handling(error_handling)
+        _validate_max_concurrency(max_concurrency)
 
         max_iter = self.default_max_iterations if max_iterations is None else max_iterations
         dispatcher = self._create_dispatcher(event_processors)
@@ -282,6 +284,7 @@ class AsyncRunnerTemplate(BaseRunner, ABC):
         select = normalize_select(select)
         _validate_on_missing(on_missing)
         _validate_error_handling(error_handling)
+        _validate_max_concurrency(max_concurrency)
 
         map_over_list = [map_over] if isinstance(map_over, str) else list(map_over)
         missing_input: MissingInputError | None = None
